@@ -712,3 +712,29 @@ func Select(ids []uint64, reals []<-chan struct{}) int {
 	}
 	return point(&o).chosen
 }
+
+// KindName names an operation kind for traces.
+func KindName(k Kind) string {
+	switch k {
+	case KLock:
+		return "lock"
+	case KRLock:
+		return "rlock"
+	case KLoad:
+		return "atomic load"
+	case KStore:
+		return "atomic store"
+	case KFS:
+		return "file-system call"
+	case KChan:
+		return "channel op"
+	case KSelect:
+		return "select"
+	case KCall:
+		return "invoke call"
+	case KUser:
+		return "start/harness"
+	default:
+		return "op"
+	}
+}
